@@ -131,11 +131,13 @@ def canon_empty_path(s):
 # ---------------------------------------------------------------------------
 # generators
 
-_name = st.sampled_from(['a', 'b', 'c', 'x', 'g', 'd;p', 'k=v', 'a,b', 'x1', '~u', 'A', 'a.b', '..a', 'a..', '.a', '-', '_'])
+_name = st.sampled_from(['a', 'b', 'c', 'x', 'g', 'd;p', 'k=v', 'a,b', 'x1', '~u', 'A', 'a.b', '..a', 'a..', '.a', '-', '_',
+                         # escaped delimiters (must stay escaped and never act as separators) and a colon inside a segment
+                         '%2F', 'a%2Fb', '%2F..', '%3Fx', '%23y', 'c:', 'c:'])
 _bseg = st.one_of(_name, _name, _name, st.just(''))
 _rseg = st.one_of(st.sampled_from(['.', '..', '..', '', '.']), _name)
-_q = st.sampled_from(['q', 'y', 'k=v', 'a=1&b=2', 'x=y/./z', 'p=..'])
-_f = st.sampled_from(['s', 'frag', 's/./x', 'a/../b', 'top'])
+_q = st.sampled_from(['q', 'y', 'k=v', 'a=1&b=2', 'x=y/./z', 'p=..', 'next=http://o.example/p', 'u=a://b/../c', 'r=//h/p'])
+_f = st.sampled_from(['s', 'frag', 's/./x', 'a/../b', 'top', 'http://f.example/g', 'a://b', '//x'])
 _host = st.sampled_from(['a', 'host', 'example.com', 'h.example', '10.0.0.1', '127.0.0.1', '[::1]', '[2001:db8::1]'])
 
 
@@ -200,6 +202,8 @@ def ref_text(r):
         segs = ['g']
     if segs[0] == '':
         segs[0] = '.'
+    if ':' in segs[0]:
+        segs.insert(0, '.')         # RFC 3986 4.2: the first segment of a relative-path reference cannot contain a colon
     path = '/'.join(segs) + ('/' if r['trailing'] else '')
     return path + q + f
 
